@@ -98,10 +98,15 @@ def run(ctx):
     L = loops[0]
     loop = L.stmt
     lsite = m.site(loop, pb)
-    ctx.check(isinstance(loop.iter, ast.Name) and loop.iter.id == ps[0] and len(rd.reaching(L, ps[0])) == 1 and rd.reaching(L, ps[0])[0][2] is None
-              and isinstance(loop.target, ast.Name), 'C08.R1', 'KmipEngine._process_batch|iterates-request-in-order', lsite,
+    # `for item in batch` or, with a running position for log records, `for i, item in enumerate(batch[, start])`
+    it_, tg_ = loop.iter, loop.target
+    if isinstance(it_, ast.Call) and call_name(it_) == 'enumerate' and it_.args and isinstance(tg_, ast.Tuple) and len(tg_.elts) == 2 and isinstance(tg_.elts[1], ast.Name) \
+            and all(isinstance(x, ast.Constant) for x in it_.args[1:] + [k.value for k in it_.keywords]):
+        it_, tg_ = it_.args[0], tg_.elts[1]
+    ctx.check(isinstance(it_, ast.Name) and it_.id == ps[0] and len(rd.reaching(L, ps[0])) == 1 and rd.reaching(L, ps[0])[0][2] is None
+              and isinstance(tg_, ast.Name), 'C08.R1', 'KmipEngine._process_batch|iterates-request-in-order', lsite,
               'for <item> in <request batch parameter>', 'the loop does not iterate the request batch itself in order: %s' % U(loop.iter))
-    item = loop.target.id if isinstance(loop.target, ast.Name) else None
+    item = tg_.id if isinstance(tg_, ast.Name) else None
     # the response list
     rets = [p for p, l in g.exit.pred if isinstance(p.stmt, ast.Return)]
     ctx.need(len(rets) >= 1 and all(isinstance(r.stmt.value, ast.Name) for r in rets), 'unrecognised construct: _process_batch return')
@@ -135,7 +140,10 @@ def run(ctx):
         kws = d[3]
         for fld in ('operation', 'unique_batch_item_id'):
             dv = sim.describe(kws.get(fld)) if kws.get(fld) else None
-            good = bool(dv) and dv[0] == 'attr' and dv[1].attr == fld and sim.describe(dv[2]) == ('iter', loop)
+            base_ = sim.describe(dv[2]) if dv and dv[0] == 'attr' else None
+            if base_ and base_[0] == 'unpack' and base_[2] == 1 and isinstance(loop.iter, ast.Call) and call_name(loop.iter) == 'enumerate':
+                base_ = sim.describe(base_[1])            # the item of `for i, item in enumerate(batch)`
+            good = bool(dv) and dv[0] == 'attr' and dv[1].attr == fld and base_ == ('iter', loop)
             if not good:
                 echo_bad.append((call, fld))
         for fld in ('result_status', 'result_reason', 'result_message', 'response_payload'):
